@@ -479,7 +479,7 @@ func (x *Exec) inlineCall(fr *Frame, st *State, callee *ssa.Function, args []Val
 	if pkg == nil {
 		pkg = x.vc.uni.pkgOf(callee)
 	}
-	nf := &Frame{fn: callee, env: map[ssa.Value]Value{}, id: x.nframes, depth: fr.depth + 1, fc: fc, pkg: pkg, top: fr.top,
+	nf := &Frame{fn: callee, env: map[ssa.Value]Value{}, id: x.nframes, depth: fr.depth + 1, fc: fc, pkg: pkg, top: fr.top, parent: fr,
 		loopHead: map[*LoopInfo]State{}, loopVariant: map[*LoopInfo]*Term{}}
 	if len(args) != len(callee.Params) {
 		unsupported("inline %s: arity mismatch", callee.Name())
@@ -568,7 +568,7 @@ func (x *Exec) havocHeap(st *State, why string, ms *ModSet) {
 
 func (x *Exec) havocCall(fr *Frame, st *State, what string, resT types.Type, heap bool) Value {
 	if heap {
-		x.havocHeap(st, what, nil)
+		x.havocHeapKeep(fr, st, what, nil)
 	}
 	if tt, ok := resT.(*types.Tuple); ok && tt.Len() == 0 {
 		return Value{K: KTuple}
@@ -578,7 +578,7 @@ func (x *Exec) havocCall(fr *Frame, st *State, what string, resT types.Type, hea
 
 func (x *Exec) havocCallMS(fr *Frame, st *State, what string, resT types.Type, ms ModSet) Value {
 	if len(ms.prefixes) > 0 || ms.allocs {
-		x.havocHeap(st, what, &ms)
+		x.havocHeapKeep(fr, st, what, &ms)
 	}
 	if tt, ok := resT.(*types.Tuple); ok && tt.Len() == 0 {
 		return Value{K: KTuple}
@@ -657,7 +657,7 @@ func (x *Exec) contractCallSig(fr *Frame, st *State, name string, names []string
 	pre := st.clone()
 	// frame
 	if fc.ModAll {
-		x.havocHeap(st, name, nil)
+		x.havocHeapKeep(fr, st, name, nil)
 	} else {
 		for _, me := range fc.Modifies {
 			x.havocModifies(env, st, &pre, me)
